@@ -322,7 +322,8 @@ GroupScan(gs, g, now, dryAll, F, obs) ==
                terminated |-> {}, deleted |-> {}, tainted |-> {}, untainted |-> {}, succ |-> 0, result |-> 0,
                ret |-> "nil", ok |-> TRUE, valid |-> TRUE, uperr |-> FALSE,
                lookReq |-> {}, lookMay |-> {}, fatal |-> FALSE, panics |-> FALSE, branch |-> "", nd |-> 0, ndSet |-> {0},
-               sel |-> [dir |-> 0, cands |-> {}, k |-> 0, fails |-> {}]]
+               sel |-> [dir |-> 0, cands |-> {}, k |-> 0, fails |-> {}],
+               counts |-> [all |-> -1, cord |-> -1, unt |-> -1, taint |-> -1, force |-> -1, pods |-> -1]]
       Done(r, delta, ret, branch) ==
         [r EXCEPT !.ctl = [@ EXCEPT !.delta = delta], !.ret = ret, !.branch = branch]
       lp == Call("list_pods", g, "", ~Failing(F, "list_pods", g), 0, 0, "")
@@ -333,6 +334,9 @@ GroupScan(gs, g, now, dryAll, F, obs) ==
   ELSE IF ~ln.ok THEN Done([base EXCEPT !.calls = <<lp, ln>>], 0, "error", "list_nodes_failed")
   ELSE
   LET r1 == [base EXCEPT !.calls = <<lp, ln>>,
+                         \* :242-247 the classification is exported as gauges
+                         !.counts = [all |-> Len(gs.order), cord |-> Len(Cordoned(gs, dry)), unt |-> Len(UntaintedS(gs, dry)),
+                                     taint |-> Len(TaintedS(gs, dry)), force |-> Len(ForceT(gs, dry)), pods |-> Len(gs.pods)],
                          \* :225-228 cache the size of the first listed node
                          !.ctl = IF Len(gs.order) > 0
                                  THEN [@ EXCEPT !.capCpu = view[gs.order[1]].cpu, !.capMem = view[gs.order[1]].mem]
@@ -491,6 +495,7 @@ CrashCut(W, F, r) ==
                  !.W = [ApplyCalls(Refreshed(W, F), pre, 1) EXCEPT !.alive = FALSE]]
 
 NoResult == [branch |-> "not_scanned", valid |-> TRUE, calls |-> <<>>, lookReq |-> {}, lookMay |-> {}, nd |-> 0, ndSet |-> {0},
+             counts |-> [all |-> -1, cord |-> -1, unt |-> -1, taint |-> -1, force |-> -1, pods |-> -1],
              sel |-> [dir |-> 0, cands |-> {}, k |-> 0, fails |-> {}],
              terminated |-> {}, deleted |-> {}, tainted |-> {}, untainted |-> {}, ret |-> "nil", fatal |-> FALSE, exit |-> FALSE]
 
